@@ -77,6 +77,8 @@ def execute(prop: str, family: str, seed: Optional[int], prefix: Sequence[int] =
         ch = Choices(seed, prefix=prefix, replay=replay)
     w = World(ch, prop, step_cap=getattr(mod, 'STEP_CAP', 20000))
     _reset_process_state()
+    from . import clientscn as _cs
+    _cs._JITTER_RESETS.clear()
     harness_error = None
     seam = timeseam.install(w)
     try:
